@@ -35,6 +35,12 @@ PLAN = {
         "atomics are sequentially consistent (Kani has no weak memory model); Mutex::lock is std's, single-threaded in the harness",
         "the retention lemma (uniform.verus.rs) is a spec-level model of Algorithm R whose step is exactly the push contract checked by Kani "
         "(draw from idx+1 equally likely values, replace slot r iff r < capacity); it is not extracted from the source text",
+        "c16_rate_and_reset is solved with CBMC's SMT back end + cvc5 (/usr/bin/cvc5): proving the code's f64 quotient equal to the specification's "
+        "takes CaDiCaL > 10 min, cvc5 ~20 s; every other harness uses Kani's default CaDiCaL",
+        "c16_push_no_panic and c16_first_sampled_push keep the stub out of their bodies so that a counterexample can be replayed on the real PRNG: "
+        "the replay of c16_first_sampled_push is statistical (256 independent pushes of the (cap+1)-th item must drop it at least once; a correct "
+        "reservoir fails that with probability <= (4/5)^256 < 2e-25)",
+        "capacity is made a literal in each match arm of the harnesses (a symbolic allocation size runs CBMC out of memory); all arms are explored",
         "panic = failure; unwinding not modelled",
     ],
     "verus": [
